@@ -264,7 +264,10 @@ impl LineIndex {
             return None;
         }
 
-        let offset = self.line_start(line)? + column - 1;
+        // `column` is caller-supplied (`at_position`, the locate CLIs): an
+        // offset that does not even fit in `usize` is past the end, not a
+        // wrapped-around in-bounds position.
+        let offset = self.line_start(line)?.checked_add(column - 1)?;
         if offset < self.text_len {
             Some(offset)
         } else {
